@@ -9,7 +9,7 @@ comparison mode; identity of reported old/new; agreement of the mechanisms.
 import numpy as np
 from hypothesis import strategies as st
 
-from traits.api import (HasTraits, Any, Int, Str, List, Instance, Event, Float, TraitError, CInt, observe,
+from traits.api import (HasTraits, Any, Int, Str, List, Instance, Event, Float, TraitError, CInt, observe, ReadOnly,
                         push_exception_handler, pop_exception_handler)
 from traits.trait_base import Undefined
 from traits.observation.api import (push_exception_handler as obs_push, pop_exception_handler as obs_pop)
@@ -52,7 +52,7 @@ arr1, arr2 = np.array([1, 2]), np.array([1, 2])
 POOL = [0, 1, 1.0, True, 2, nan1, nan2, l1, l2, [3], s1, s2, "c", None, f1, f2, BadEq(), (1,), (1,), "bad", 3.5,
         arr1, arr2, np.array([1, 3]), 1 + 0j, [], 257, 257 + 0, 2.0, "12", "7"]
 MODES = {"n": 0, "i": 1, "e": 2}
-KINDS = ["Any", "Int", "Str", "List", "Inst", "Event", "Float", "CEvent"]
+KINDS = ["Any", "Int", "Str", "List", "Inst", "Event", "Float", "CEvent", "Ro"]
 VALID = {
     "Any": list(range(len(POOL))),
     "Int": [0, 1, 3, 4, 26, 27],
@@ -62,11 +62,14 @@ VALID = {
     "Event": list(range(len(POOL))),
     "CEvent": [0, 1, 2, 3, 4, 20, 26, 28, 29, 30, 29, 30],      # a TYPED event, Event(CInt): handlers are told the validated value
     "Float": [0, 1, 2, 5, 6, 20, 28],
+    # a write-once attribute: its ONE defining assignment is a change like any other (old value Undefined), every later one
+    # is rejected
+    "Ro": list(range(len(POOL))),
 }
 NAMES = []
 for _k in KINDS:
     for _m in MODES:
-        if _k in ("Event", "CEvent") and _m != "e":
+        if _k in ("Event", "CEvent", "Ro") and _m != "e":
             continue
         NAMES.append("%s_%s" % (_k.lower(), _m))
 
@@ -76,7 +79,7 @@ def mk(kind, mode):
     return {"Any": lambda: Any(comparison_mode=cm), "Int": lambda: Int(comparison_mode=cm),
             "Str": lambda: Str(comparison_mode=cm), "List": lambda: List(Int, comparison_mode=cm),
             "Inst": lambda: Instance(Foo, comparison_mode=cm), "Event": lambda: Event(), "CEvent": lambda: Event(CInt),
-            "Float": lambda: Float(comparison_mode=cm)}[kind]()
+            "Float": lambda: Float(comparison_mode=cm), "Ro": lambda: ReadOnly}[kind]()
 
 
 # traits that get NO trait-level handler at all in the "bare" variant of the class (which also has no static
@@ -91,7 +94,7 @@ def build(raisers, log, bare=False, sub=False, magic=False):
     ns = {}
     for nm in NAMES:
         kind, mode = nm.split("_")
-        kind = {"any": "Any", "int": "Int", "str": "Str", "list": "List", "inst": "Inst", "event": "Event", "float": "Float", "cevent": "CEvent"}[kind]
+        kind = {"any": "Any", "int": "Int", "str": "Str", "list": "List", "inst": "Inst", "event": "Event", "float": "Float", "cevent": "CEvent", "ro": "Ro"}[kind]
         ns[nm] = mk(kind, mode)
         if bare and nm in BARE:
             continue
@@ -136,7 +139,7 @@ def build(raisers, log, bare=False, sub=False, magic=False):
 @st.composite
 def op_strategy(draw):
     ni = draw(st.integers(0, len(NAMES) - 1))
-    kind = {"any": "Any", "int": "Int", "str": "Str", "list": "List", "inst": "Inst", "event": "Event", "float": "Float", "cevent": "CEvent"}[NAMES[ni].split("_")[0]]
+    kind = {"any": "Any", "int": "Int", "str": "Str", "list": "List", "inst": "Inst", "event": "Event", "float": "Float", "cevent": "CEvent", "ro": "Ro"}[NAMES[ni].split("_")[0]]
     op = draw(st.sampled_from(["set", "set", "set", "set", "set", "read", "setq", "setq_kw"]))
     if draw(st.integers(0, 99)) < 85:
         vi = draw(st.sampled_from(VALID[kind]))
